@@ -3,10 +3,14 @@ import SamVerif.Model.Stats
 namespace SamVerif.Drive.C20
 open SamVerif SamVerif.Drive SamVerif.Stats
 
+def stepOf (c : Char) : Step :=
+  if c == 'o' then .reply else if c == 'm' then .moved else if c == 'n' then .movedDead
+  else if c == 'a' then .ask else if c == 'A' then .askRefused else .fail
+
 def parseReq (tok : String) : Option (Option Req) :=
   let (name, plans) := match tok.splitOn ":" with
-    | [n] => (n, ([] : List (List Char)))
-    | [n, p] => (n, (p.splitOn "/").map String.toList)
+    | [n] => (n, ([] : List (List Step)))
+    | [n, p] => (n, (p.splitOn "/").map fun (s : String) => s.toList.map stepOf)
     | _ => ("?", [])
   match name with
   | "Q" => some none
